@@ -69,5 +69,12 @@ OccTransparent ==
                          RECURSIVE Run(_)
                          Run(s) == IF s.j > 0 /\ ~s.brk THEN Run(BSStep(s, p, ix0)) ELSE s
                      IN  BSResult(Run(BSInit(N, Len(p)))) = res
+\* closed-form family of the long-text driver class: on A^(n-1)$ the search for A^m is UnaryBS(n, m),
+\* with the rows of the interval mapping to n-1-row
+UnaryLemma ==
+    (mode = "done" /\ \E a \in Sym : t = UnaryText(N, a, Sent) /\ p = [i \in 1..Len(p) |-> a]) =>
+        LET want == UnaryBS(N, Len(p)) IN
+        /\ res.kind = want.kind /\ (want.kind # Absent => res.lower = want.lower /\ res.upper = want.upper /\ res.len = want.len)
+        /\ \A r \in res.lower..(res.upper - 1) : sa[r + 1] = N - 1 - r
 Progress == [][mode = "search" /\ mode' = "search" => (st'.brk \/ st'.j = st.j - 1)]_vars
 =============================================================================
